@@ -262,8 +262,14 @@ func (s *store) authenticate(username, password string) (result authenticateResu
 	verifEvent("exec.auth", username, password, result.ok, result.isAdmin, result.upgradeable, result.err)
 	if result.ok && result.upgradeable && s.upgradeChan != nil {
 		verifGate("upgrade.send")
-		s.upgradeChan <- updateRequest{username: username, password: password}
-		verifEvent("upgrade.sent", username, password)
+		// never block here: in local mode the dispatcher itself is the only receiver of this
+		// channel, so a blocking send on a full queue would wedge the agent for good.
+		select {
+		case s.upgradeChan <- updateRequest{username: username, password: password}:
+			verifEvent("upgrade.sent", username, password)
+		default:
+			wdl.Printf("upgrade: queue is full, skipping upgrade request for '%s'", username)
+		}
 	}
 	return
 }
